@@ -128,6 +128,12 @@ def worker(spec_path, out_path):
             warnings.simplefilter("ignore")
             from hypnotoad.core.mesh import BoutMesh
 
+            # optional history: grids built (and discarded) earlier in the same interpreter
+            for hs in spec.get("history", []):
+                heq = make_equilibrium(hs)
+                hm = BoutMesh(heq, dict(hs["options"]))
+                hm.geometry()
+                del hm, heq
             eq = make_equilibrium(spec)
             mesh = BoutMesh(eq, dict(spec["options"]))
             mesh.geometry()
